@@ -482,6 +482,21 @@ def convention_cases():
     d.addErrback(got.append)
     if len(got) != 1:
         return 'callRemote with an invalid member did not fail its Deferred'
+    # a second connection of the same process is established while calls are outstanding on the first: the calls the first connection
+    # issues afterwards have serials of their own, and every reply completes the call it belongs to
+    p1, clock1 = make_connection()
+    o1, o2 = [], []
+    p1.callRemote('/o', 'First', interface='org.e.I', destination='org.e').addBoth(o1.append)
+    s_first = max(p1._pendingCalls)
+    p2, _clock2 = make_connection()
+    p1.callRemote('/o', 'Second', interface='org.e.I', destination='org.e').addBoth(o2.append)
+    if len(p1._pendingCalls) != 2:
+        return 'a call issued after ANOTHER connection of the process was established re-used the serial of an outstanding call: pending %r' % sorted(p1._pendingCalls)
+    s_second = max(s for s in p1._pendingCalls if s != s_first) if len(p1._pendingCalls) == 2 else None
+    p1.dataReceived(message.MethodReturnMessage(s_second, signature='s', body=['second']).rawMessage)
+    p1.dataReceived(message.MethodReturnMessage(s_first, signature='s', body=['first']).rawMessage)
+    if o1 != ['first'] or o2 != ['second']:
+        return 'two calls on one connection, a second connection established in between: completions %r and %r' % (o1, o2)
     # a call that cannot be WRITTEN (a descriptor argument on a transport that cannot pass descriptors) completes once, as a failure,
     # and leaves neither an entry nor a deadline behind - with and without a deadline of its own
     for tmo in (5, None):
